@@ -274,9 +274,15 @@ async fn run_reader(ep: &mut dyn Endpoint, caps: &[usize], prefill: usize, side:
         i += 1;
         side.borrow_mut().reads += 1;
         let res = match idle {
-            Some(d) => match tokio::time::timeout(d, ep.read(cap, prefill)).await {
-                Ok(r) => r,
-                Err(_) => return, // nothing arrived for `d` of virtual time and no EOF is expected
+            Some(d) => loop {
+                // "nothing arrives" is judged on the pipes, not on what the adapter delivers: a TLS
+                // record trickling in byte by byte produces no plaintext for a long time
+                let before = crate::net::moved();
+                match tokio::time::timeout(d, ep.read(cap, prefill)).await {
+                    Ok(r) => break r,
+                    Err(_) if crate::net::moved() == before => return, // quiet for `d` and no EOF is expected
+                    Err(_) => continue,
+                }
             },
             None => ep.read(cap, prefill).await,
         };
@@ -534,8 +540,28 @@ impl Scenario for IoSim {
                     tokio::join!(side_a, side_b);
                 }
             };
-            let r = tokio::time::timeout(std::time::Duration::from_secs(3600), both).await;
-            r.is_err()
+            // a transfer hangs when nothing touches any pipe for ten minutes of virtual time while
+            // it is unfinished; a slow one (one byte per operation, each delayed) is not a hang
+            tokio::pin!(both);
+            let mut last = crate::net::moved();
+            let mut quiet = 0;
+            loop {
+                match tokio::time::timeout(std::time::Duration::from_secs(300), &mut both).await {
+                    Ok(()) => break false,
+                    Err(_) => {
+                        let now = crate::net::moved();
+                        if now == last {
+                            quiet += 1;
+                        } else {
+                            quiet = 0;
+                        }
+                        last = now;
+                        if quiet >= 2 {
+                            break true;
+                        }
+                    }
+                }
+            }
         })));
         drop(rt);
         let stall = stall.unwrap_or(false);
